@@ -123,6 +123,7 @@ impl ast::Visit for Visitor<'_, '_> {
             | ast::StmtKind::CondJump { .. }
             | ast::StmtKind::While { .. }
             | ast::StmtKind::Jump { .. }
+            | ast::StmtKind::Block { .. }
             | ast::StmtKind::Loop { .. } => {
                 ast::walk_stmt(self, stmt)
             },
@@ -160,7 +161,6 @@ impl ast::Visit for Visitor<'_, '_> {
 
             ast::StmtKind::CallSub { .. } => unimplemented!("need to check arg types against signature"),
 
-            ast::StmtKind::Block { .. } => {},
             ast::StmtKind::InterruptLabel { .. } => {},
             ast::StmtKind::AbsTimeLabel { .. } => {},
             ast::StmtKind::RelTimeLabel { .. } => {},
